@@ -411,11 +411,29 @@ Proof.
     + rewrite Hl in Hg. replace (prefix_estimate opts' <? st_maxline s)%Z with true by lia. reflexivity.
 Qed.
 
-Theorem isupport_limit_inv evs : limit_inv (fold_left handle_isupport evs state_init).
+Lemma limit_inv_fold evs : forall s, limit_inv s -> limit_inv (fold_left handle_isupport evs s).
 Proof.
-  assert (G : forall s, limit_inv s -> limit_inv (fold_left handle_isupport evs s)).
-  { induction evs as [|e r IH]; intros s H; cbn [fold_left]; [exact H|]. apply IH. apply limit_inv_step. exact H. }
-  apply G. apply limit_inv_init.
+  induction evs as [|e r IH]; intros s H; cbn [fold_left]; [exact H|]. apply IH. apply limit_inv_step. exact H.
+Qed.
+
+Theorem isupport_limit_inv evs : limit_inv (fold_left handle_isupport evs state_init).
+Proof. apply limit_inv_fold. apply limit_inv_init. Qed.
+
+(* the reset before every connection forgets what an earlier server advertised *)
+Lemma limit_inv_reset s : limit_inv (reset_conn s).
+Proof. repeat split; try reflexivity. intros L H. discriminate. Qed.
+
+Lemma formula_of_inv s : limit_inv s ->
+  let P := prefix_estimate (st_opts s) in
+  (forall L, opt_num (st_opts s) k_LINELEN = Some L -> (P < L)%Z ->
+     max_event_length s = (L - 2 - P)%Z) /\
+  (alookup k_LINELEN (st_opts s) = None -> (P < 510)%Z ->
+     max_event_length s = (512 - 2 - P)%Z).
+Proof.
+  cbv zeta. intros (I1 & I2 & I3). unfold max_event_length. split.
+  - intros L HL Hg. rewrite HL in I3. rewrite (I1 L HL), (I3 Hg). reflexivity.
+  - intros Hn Hg. assert (HN : opt_num (st_opts s) k_LINELEN = None) by (unfold opt_num; rewrite Hn; reflexivity).
+    rewrite HN in I3. rewrite (I2 Hn) in *. rewrite (I3 Hg). lia.
 Qed.
 
 (* MaxEventLength = L - 2 - P *)
@@ -426,12 +444,48 @@ Theorem max_event_length_formula evs :
      max_event_length s = (L - 2 - P)%Z) /\
   (alookup k_LINELEN (st_opts s) = None -> (P < 510)%Z ->
      max_event_length s = (512 - 2 - P)%Z).
+Proof. apply formula_of_inv. apply isupport_limit_inv. Qed.
+
+(* ... also on a client object that was connected before: whatever state s0 the earlier
+   connections left, after the reset of the next connection only this connection's 005
+   lines count (its options start empty, so `opts` below holds nothing older). *)
+Theorem max_event_length_reconnect s0 evs :
+  let s := fold_left handle_isupport evs (reset_conn s0) in
+  let P := prefix_estimate (st_opts s) in
+  (forall L, opt_num (st_opts s) k_LINELEN = Some L -> (P < L)%Z ->
+     max_event_length s = (L - 2 - P)%Z) /\
+  (alookup k_LINELEN (st_opts s) = None -> (P < 510)%Z ->
+     max_event_length s = (512 - 2 - P)%Z).
+Proof. apply formula_of_inv. apply limit_inv_fold. apply limit_inv_reset. Qed.
+
+(* and the limits are literally those of a first connection that sees the same lines *)
+Definition same_limits (a b : state) : Prop :=
+  st_opts a = st_opts b /\ st_maxline a = st_maxline b /\ st_maxprefix a = st_maxprefix b.
+
+Lemma isupport_accepted_dec e : isupport_accepted e \/ ~ isupport_accepted e.
 Proof.
-  cbv zeta. destruct (isupport_limit_inv evs) as (I1 & I2 & I3).
-  set (s := fold_left handle_isupport evs state_init) in *. unfold max_event_length. split.
-  - intros L HL Hg. rewrite HL in I3. rewrite (I1 L HL), (I3 Hg). reflexivity.
-  - intros Hn Hg. assert (HN : opt_num (st_opts s) k_LINELEN = None) by (unfold opt_num; rewrite Hn; reflexivity).
-    rewrite HN in I3. rewrite (I2 Hn) in *. rewrite (I3 Hg). lia.
+  unfold isupport_accepted. destruct (suffixb this_server (last_param e)); [|right; intros [H _]; discriminate].
+  destruct (Nat.ltb (length (e_params e)) 2) eqn:E.
+  - right. intros [_ H]. apply Nat.ltb_lt in E. lia.
+  - left. split; [reflexivity|]. apply Nat.ltb_ge in E. exact E.
+Qed.
+
+Lemma handle_isupport_same a b e : same_limits a b -> same_limits (handle_isupport a e) (handle_isupport b e).
+Proof.
+  intros (Ho & Hl & Hp). destruct (isupport_accepted_dec e) as [Ha|Hr].
+  - destruct (handle_isupport_step a e Ha) as (Oa & La & Pa).
+    destruct (handle_isupport_step b e Ha) as (Ob & Lb & Pb).
+    unfold same_limits. rewrite Oa, Ob, La, Lb, Pa, Pb, Ho, Hl, Hp. repeat split; reflexivity.
+  - rewrite !handle_isupport_rejected by exact Hr. repeat split; assumption.
+Qed.
+
+Theorem reconnect_as_fresh s0 evs :
+  same_limits (fold_left handle_isupport evs (reset_conn s0)) (fold_left handle_isupport evs state_init).
+Proof.
+  assert (G : forall a b, same_limits a b ->
+              same_limits (fold_left handle_isupport evs a) (fold_left handle_isupport evs b)).
+  { induction evs as [|e r IH]; intros a b H; cbn [fold_left]; [exact H|]. apply IH. apply handle_isupport_same. exact H. }
+  apply G. repeat split; reflexivity.
 Qed.
 
 Definition ex_005 : event :=
